@@ -321,7 +321,7 @@ pub fn check_c17(tier: Tier) -> i32 {
         "coverage": {
             "evaluations": sessions,
             "distinct_nontrivial": nontrivial,
-            "rule": format!("one retained Compiler+VM pair is driven line by line; every line is compared with eval (same build, fresh state) of the single program made of all completed earlier statements plus that line (value when the line ends in an expression statement, output, error kind and message); after a failing line the model keeps exactly the statements (or, for an injected failure, the top-level assignments counted by the step hook) that completed. Sessions: {} directed, COMPLETE enumeration of all sessions of length {} over an alphabet of {} line templates (declarations, assignments, reads, element assignments, loops, self-contained functions, parse / compile / run-time failures) each additionally with a failure injected at EVERY instruction k of every injectable line and once more with a collection at every instruction boundary, and seeded random sessions of 2-12 lines (10-50% failing lines, failures injected at seeded k, allocator modes plain/poison/move). A session is non-trivial when at least one line ran after a failed line; distinct = distinct event-log hash.", crate::engine_session::DIRECTED, if tier == Tier::Quick { "1-2" } else { "1-3" }, crate::engine_session::ALPHABET),
+            "rule": format!("one retained Compiler+VM pair is driven line by line; every line is compared with eval (same build, fresh state) of the single program made of all completed earlier statements plus that line (value when the line ends in an expression statement, output, error kind and message); after a failing line the model keeps exactly the statements (or, for an injected failure, the top-level assignments counted by the step hook) that completed. Sessions: {} directed, COMPLETE enumeration of all sessions of length {} over an alphabet of {} line templates (declarations, assignments, reads, element assignments, loops, self-contained functions, parse / compile / run-time failures) each additionally with a failure injected at EVERY instruction k of every injectable line and once more with a collection at every instruction boundary, and seeded random sessions of 2-12 lines (10-50% failing lines, failures injected at seeded k, allocator modes plain/poison/move/scatter), and an offset sweep of 2048 two-line sessions (a padding line of exactly o bytes of code, o = 2..2049, then a line full of jumps: a line must mean the same at offset 0 of its own compilation unit and behind o bytes of earlier code). A session is non-trivial when at least one line ran after a failed line; distinct = distinct event-log hash.", crate::engine_session::DIRECTED, if tier == Tier::Quick { "1-2" } else { "1-3" }, crate::engine_session::ALPHABET),
             "samples": acc.samples,
             "exhaustive": false,
             "exhaustive_note": "complete over the stated line alphabet and session length and over all injection points of those sessions; random sessions are sampled",
